@@ -256,6 +256,20 @@ def d5(ctx, F):
     c14.decomp_whole_output(ctx, F, "C03.D5")
     c05.d5(ctx, F)
     c05.d5_guard_exactness(ctx, F)
+    # "all payload sizes up to the frame limit": the frame codec's two sides agree on what the limit is applied to (C05.D3)
+    c05.d3(ctx, F)
+
+
+def d6(ctx, F):
+    """no lost wake-up on the consuming side: the subscriber (and the reconnecting wrapper around it) never answers Pending without
+    a wake-up arranged in the same call — an item that has arrived would otherwise never be yielded"""
+    n = 0
+    for p_, b in sorted(F.bodies.items()):
+        if b.crate == "selium" and (b.name or "").startswith("poll") and not b.is_coroutine and ("Subscriber" in p_ or "Publisher" in p_ or ("keep_alive::pubsub" in p_ and b.name == "poll_next")) and p_.startswith("<"):
+            ctx.touch(b)
+            n += 1
+            K.pending_discipline(ctx, F, b, "C03.D6.pending-has-waker", p_.split(" as ")[0].rsplit("::", 1)[-1].split("<")[0] + "::" + b.name)
+    ctx.floor("C03.D6.poll-fns", n, 4)
 
 
 def run(ctx):
@@ -265,3 +279,4 @@ def run(ctx):
     d3(ctx, F)
     d4(ctx, F)
     d5(ctx, F)
+    d6(ctx, F)
